@@ -98,7 +98,7 @@ def _np_mean(x, *a, **k):
         arr = x.to_numpy()
         if len(arr) == 0:
             return Undefined('mean of an empty selection')
-        return _np.mean(arr)
+        return _np.mean(arr, *a, **k)
     return _np.mean(x, *a, **k)
 
 
@@ -107,7 +107,7 @@ def _np_std(x, *a, **k):
         arr = x.to_numpy()
         if len(arr) == 0:
             return Undefined('std of an empty selection')
-        return _np.std(arr)
+        return _np.std(arr, *a, **k)
     return _np.std(x, *a, **k)
 
 
